@@ -180,11 +180,8 @@ impl Prop for C18Prop {
         let ok = match (&want, &o) {
             (Ok(n), Outcome::Ok(Val::NI(g))) => n == g,
             (Err(()), Outcome::Ok(Val::NF(g))) => {
-                if v.is_nan() {
-                    g.is_nan()
-                } else {
-                    g.to_bits() == bits
-                }
+                // "Float(v) with v's bits unchanged": NaNs keep their sign, quiet bit and payload as well
+                g.to_bits() == bits
             }
             _ => false,
         };
